@@ -23,6 +23,16 @@ SPECIAL = [
 ]
 
 
+# rules written bottom-up (an earlier-declared nonterminal inherits FOLLOW from later-declared ones through a chain of tail positions):
+# the fixpoints of FIRST/FOLLOW need several passes here
+SPECIAL += [
+    {"prods": [("S", ("C", "c")), ("A", ()), ("B", ("a", "A")), ("C", ("b", "B"))], "terms": gen.PLAIN_TERMS},
+    {"prods": [("S", ("A", "c")), ("C", ("b",)), ("B", ("C",)), ("A", ("B",))], "terms": gen.PLAIN_TERMS},
+    {"prods": [("S", ("A", "a")), ("S", ("S", "A", "a")), ("C", ("c",)), ("C", ("b", "S", "b")), ("B", ("C",)), ("B", ("B", "c", "C")), ("A", ("B",))],
+     "terms": gen.PLAIN_TERMS},
+]
+
+
 def _jobs(tier, seed):
     p = PARAMS[tier]
     fam = SPECIAL + gen.WITNESSES[:5] + gen.family(3, 3, limit=p["nfam"], rng_seed=101) + \
